@@ -241,12 +241,12 @@ def event_correspondence(ctx, H, E):
     html_lists = list(exhaustive(html_tags6, L))
     epub_lists = (list(exhaustive(epub_tags6, 3)) if L == 3 else
                   list(exhaustive(epub_tags8, 3)) + [l for l in exhaustive(epub_tags6, 4) if len(l) == 4])
-    for _ in range(ctx.n(600, 5000)):
+    for _ in range(ctx.n(400, 5000)):
         html_lists.append(random_events(rng, html_more, rng.randint(4, 24)))
         epub_lists.append(random_events(rng, epub_more, rng.randint(4, 24)))
 
     # scale: deep stacks and long sibling runs, with a removable element at the far end (model has no notion of a cap)
-    for d in (64, 129, 257, 300) + ((513,) if L == 4 else ()):
+    for d in ((129, 257) if L == 3 else (64, 129, 257, 300, 513)):
         for shape, tags in (("unclosed", ["p", "li", "font"]), ("nested", ["div", "blockquote"]), ("wide", ["p", "td"])):
             pre_e, closing = deep_events(shape, d, tags)
             r = rng.choice(["script", "noscript", "object", "iframe", "style", "applet"])
@@ -1096,7 +1096,9 @@ def sniff_correspondence(ctx, H):
              b"<noscript><script></noscript><meta charset=latin-1></script><meta charset=cp1252>", b"<style", b"<!--",
              b"x" * 8180 + b"<meta charset=latin-1>", b"x" * 8192 + b"<meta charset=latin-1>", b"x" * 8170 + b"<meta charset=latin-1>",
              b"<!--" + b"x" * 8190 + b"--><meta charset=latin-1>", b"x" * 8186 + b"<script><meta charset=latin-1>"]
-    for _ in range(ctx.n(500, 5000)):
+    if ctx.tier == "quick":
+        heads = [h for h in heads if len(h) < 4000] + [h for h in heads if len(h) >= 4000][1:3]
+    for _ in range(ctx.n(300, 5000)):
         heads.append(b"".join(rng.choice(pieces) for _ in range(rng.randint(1, 10))))
     skip_re = getattr(H, "_RE_SNIFF_SKIP_BYTES", None)
     cases, info = [], []
@@ -1778,7 +1780,7 @@ def run(ctx):
 
     ctx.prove("C17/Props.v", ["C17/Proofs.vo"], expected=[
         "C17_html_noninterference", "C17_html_outputs_equal", "C17_html_void_removable", "C17_html_comment_inert",
-        "C17_html_text_preserved", "C17_html_all_text_without_removable", "C17_html_text_monotone", "C17_html_tree_has_no_removable_node",
+        "C17_html_text_preserved", "C17_html_all_text_without_removable", "C17_html_text_monotone", "C17_html_tree_has_no_removable_node", "C17_html_no_depth_cap",
         "C17_epub_noninterference", "C17_epub_outputs_equal", "C17_epub_void_removable", "C17_epub_comment_inert"])
     ctx.prove("C17/Inst.v", ["Gen/C17Tables.vo", "C17/Corr.vo", "C17/Proofs.vo"], expected=[
         "C17_html_tables_wf", "C17_epub_tables_wf", "C17_statement_tags_removed",
